@@ -8,7 +8,9 @@ property flagged what (m = monitor false, d = model != implementation only;
 known-finding cases excluded) and writes /tmp/pipe/mutations.json."""
 import json, os, re, subprocess, sys, concurrent.futures
 
-ROOT, WT, OUT = "/verif", "/tmp/wt_pipeline", "/tmp/pipe/mut"
+ROOT = os.path.abspath(os.path.join(os.path.dirname(os.path.abspath(__file__)), "..", "..", ".."))
+TMP = "/tmp/pipe" if ROOT == "/verif" else "/tmp/pipe_" + os.path.basename(ROOT)
+WT, OUT = "/tmp/wt_pipeline_" + os.path.basename(ROOT), TMP + "/mut"
 PROPS = ["C01", "C02", "C03", "C04", "C05", "C10", "C11", "C12", "C13"]
 ENV = dict(os.environ, GOFLAGS="-mod=mod", GOPROXY="off", GOSUMDB="off", GOTOOLCHAIN="local", CGO_ENABLED="0")
 
@@ -108,13 +110,13 @@ def main():
         rc, o = sh(["git", "-C", "/repo", "worktree", "add", "--detach", WT, "HEAD"])
         if rc != 0:
             print(o); sys.exit(2)
-    os.makedirs("/tmp/pipe", exist_ok=True)
-    mod = "/tmp/pipe/mut.mod"
+    os.makedirs(TMP, exist_ok=True)
+    mod = TMP + "/mut.mod"
     open(mod, "w").write(open(ROOT + "/harness/go.mod").read().replace("=> /repo", "=> " + WT))
-    subprocess.run(["cp", WT + "/go.sum", "/tmp/pipe/mut.sum"])
+    subprocess.run(["cp", WT + "/go.sum", TMP + "/mut.sum"])
     results = {}
-    if os.path.exists("/tmp/pipe/mutations.json"):
-        results = json.load(open("/tmp/pipe/mutations.json"))
+    if os.path.exists(TMP + "/mutations.json"):
+        results = json.load(open(TMP + "/mutations.json"))
     muts = [("baseline", None, None, None)] + MUTATIONS
     for name, path, old, new in muts:
         if want and name not in want:
@@ -125,11 +127,11 @@ def main():
             if src.count(old) != 1:
                 print("MUTATION %s: pattern found %d times in %s" % (name, src.count(old), path)); continue
             open(os.path.join(WT, path), "w").write(src.replace(old, new))
-        rc, o = sh(["go", "build", "-modfile", mod, "-o", "/tmp/pipe/corrall_mut", "./pipeline/tools/corrall"], cwd=ROOT + "/harness", env=ENV)
+        rc, o = sh(["go", "build", "-modfile", mod, "-o", TMP + "/corrall_mut", "./pipeline/tools/corrall"], cwd=ROOT + "/harness", env=ENV)
         if rc != 0:
             print("MUTATION %s: does not build\n%s" % (name, o[-1200:])); continue
         subprocess.run(["rm", "-rf", OUT]); os.makedirs(OUT)
-        rc, o = sh(["/tmp/pipe/corrall_mut", "-seed", "1", "-tier", "quick", "-out", OUT] + PROPS, env=ENV)
+        rc, o = sh([TMP + "/corrall_mut", "-seed", "1", "-tier", "quick", "-out", OUT] + PROPS, env=ENV)
         if rc != 0:
             print("MUTATION %s: harness failed\n%s" % (name, o[-1500:])); continue
         res = evaluate()
@@ -138,7 +140,7 @@ def main():
         differs = [p for p in PROPS if res[p]["d"]]
         print("%-40s monitor/impl-failure: %-40s differs-only: %s" % (name, ",".join("%s(%d)" % (p, res[p]["m"] + res[p]["impl"]) for p in caught) or "-",
               ",".join("%s(%d)" % (p, res[p]["d"]) for p in differs) or "-"), flush=True)
-        json.dump(results, open("/tmp/pipe/mutations.json", "w"), indent=1)
+        json.dump(results, open(TMP + "/mutations.json", "w"), indent=1)
     sh(["git", "-C", WT, "checkout", "--", "."])
 
 if __name__ == "__main__":
